@@ -770,6 +770,8 @@ impl PackageBuilder {
                 crate::verif_hooks::hit("builder.stripped_entry_written");
                 archive.write_all(&header)?;
                 archive.write_all(&content)?;
+                // pad out to a multiple of 4 bytes, like every other cpio entry
+                archive.write_all(&[0u8; 3][..(4 - content.len() % 4) % 4])?;
                 archive.flush()?;
             };
 
